@@ -124,3 +124,10 @@ Proof.
     + unfold PMSafe; cbn [pol_pmtp pm_epoch_len pm_gov]. split; [lia | vm_compute; reflexivity].
   - eexists. split; [vm_compute; reflexivity|]. repeat split.
 Qed.
+
+(* swap-fee parameters: a message that is accepted carries a default rate and per-token rates in [0,1] only (a rate above 1
+   makes the fee exceed the swapped amount: sdk.Uint underflow in the epoch hook's re-investment) *)
+Theorem C10_swap_fee_rates_in_range : forall s d rs s',
+  policy_handle s (PUpdateSwapFee d rs) = Ok s' -> s' = s /\ 0 <= d <= PREC /\ Forall (fun r => 0 <= r <= PREC) rs.
+Proof. exact swap_fee_accepted. Qed.
+Print Assumptions C10_swap_fee_rates_in_range.
